@@ -302,3 +302,26 @@ Proof.
   exists D'. split; [reflexivity|]. intro He. apply desc_equiv_opt_count in He. rewrite H in He.
   change (msg_opt_count w2_file) with [1%nat] in He. apply Permutation_length_1 in He. discriminate.
 Qed.
+
+(* ------------------------------------------------------------------ (5) identifiers that protobuf does not allow *)
+(* the compiler accepts `object Élan { field naïve string }` (the BCL lexer takes unicode letters) and builds
+   message Élan { string naïve = 1; }.  The descriptor is inside the token-level theorem (identifiers are byte strings
+   there), but its printed tokens are not all tokens the lexer model can read: no rendering of them scans back.
+   (live known finding, C05 + C16) *)
+Definition w3_field : dfield :=
+  {| f_key := wk 0 0; f_cm := no_cmt; f_label := LNone; f_type := DSingle (DScalar (bs "string"));
+     f_name := [110; 97; 195; 175; 118; 101]; f_num := 1; f_json := [110; 97; 195; 175; 118; 101]; f_opts := [] |}.
+Definition w3_file : dfile :=
+  {| d_pkg := [bs "uni"; bs "v1"]; d_imports := []; d_fopts := []; d_exts := [];
+     d_body := [DMsg (wk 0 0) no_cmt [195; 137; 108; 97; 110] [] [DField w3_field]] |}.
+Definition w3_imp : xsymtab := {| x_types := []; x_pkgs := [] |}.
+Definition w3_tokens : list token := print_file_tokens_nc (to_symtab (dfile_symtab w3_imp w3_file)) w3_file.
+
+Theorem non_ascii_identifier_witness :
+  wf_dfile w3_imp w3_file
+  /\ forallb tok_ok w3_tokens = false
+  /\ scan_text (spaced w3_tokens) <> Some w3_tokens.
+Proof.
+  split; [apply wf_dfile_b_sound; vm_compute; reflexivity|]. split; [vm_compute; reflexivity|].
+  vm_compute. discriminate.
+Qed.
